@@ -5,7 +5,7 @@ From Coq Require Import List NArith ZArith Lia.
 From Coq Require Import Init.Byte.
 From Bec2 Require Import Base.Result Base.Bytes Base.Reader Gen.Consts Model.Cbc Model.Bf3 Model.Damage
   Proofs.CbcProofs Proofs.Bf3Proofs Proofs.Bf3TextProofs Proofs.DamageProofs Proofs.DamageStructProofs
-  Proofs.DamageReductionProofs Proofs.DamageTextProofs Proofs.DamageCbcProofs Proofs.DamageByteProofs Proofs.DamageTextFinalProofs.
+  Proofs.DamageReductionProofs Proofs.DamageTextProofs Proofs.DamageCbcProofs Proofs.DamageByteProofs Proofs.DamageTextFinalProofs Proofs.DamageReplaceProofs.
 Import ListNotations.
 Open Scope N_scope.
 
@@ -181,4 +181,42 @@ Section Adapter.
     Forall wf_comp cs -> to_binary enc mac cs off k = Ok b -> b = b1 ++ [x] -> x <> x00 -> y <> x ->
     exists e, from_binary dec mac (mkR (b1 ++ [y]) off) true k = Err e.
   Proof. apply (last_byte_rejected enc dec mac ad_mac_len ad_enc_len ad_dec_enc ad_mac_byte). Qed.
+
+  Lemma ad_byte_replacement cs off k b u x v y :
+    Forall wf_comp cs -> to_binary enc mac cs off k = Ok b -> b = u ++ x :: v -> y <> x ->
+    exists e, from_binary dec mac (mkR (u ++ y :: v) off) true k = Err e /\ e <> EFuel.
+  Proof.
+    intros Hwf Hw Hb Hy.
+    destruct (byte_replacement enc dec mac ad_mac_len ad_enc_len ad_mac_byte cs off k b u x v y Hwf Hw Hb Hy) as [e He].
+    exists e. split; [exact He|]. intros ->. revert He. apply from_binary_no_fuel; [exact ad_mac_nf|exact ad_dec_nf].
+  Qed.
+
+  (* text level: the binary decoded from the text is the authentic one (signature included)
+     with one byte replaced *)
+  Lemma ad_text_byte_replacement f k b t' cm u x v y :
+    Forall wf_comp (f_comps f) -> to_binary enc mac (f_comps f) (blen BF3_FILE_SIG) k = Ok b ->
+    BF3_FILE_SIG ++ b = u ++ x :: v -> y <> x ->
+    parse_bf3_file t' = Ok (u ++ y :: v, cm) ->
+    exists e, read_file dec mac t' true k = Err e.
+  Proof.
+    intros Hwf Hb Hraw Hy Hp.
+    apply app_eq_app in Hraw as [l [[Hsig Hrest]|[Hu Hbb]]].
+    - destruct l as [|c0 l].
+      + rewrite app_nil_r in Hsig. cbn [app] in Hrest. subst u.
+        unfold read_file. rewrite Hp. cbn [bind]. unfold new_reader. rewrite rd_read_app. cbn [bind].
+        rewrite bytes_eqb_refl. cbn [negb].
+        destruct (ad_byte_replacement (f_comps f) _ k b [] x v y Hwf Hb (eq_sym Hrest) Hy) as [e [He _]].
+        cbn [app] in He. change (0 + blen BF3_FILE_SIG) with (blen BF3_FILE_SIG). rewrite He. exists e. reflexivity.
+      + cbn [app] in Hrest. injection Hrest as <- Hv.
+        destruct (signature_rejected dec mac t' (u ++ y :: v) cm true k Hp) as [H|H]; [|eexists; exact H|eexists; exact H].
+        intros r Hr. rewrite Hv in Hr.
+        replace (u ++ y :: l ++ b) with ((u ++ y :: l) ++ b) in Hr by (rewrite <- app_assoc; reflexivity).
+        apply app_inv_length in Hr as [Hr _].
+        * rewrite Hsig in Hr. apply app_inv_head in Hr. inversion Hr. apply Hy. congruence.
+        * rewrite Hsig, !app_length. reflexivity.
+    - subst u. unfold read_file. rewrite Hp. cbn [bind]. unfold new_reader.
+      rewrite <- app_assoc, rd_read_app. cbn [bind]. rewrite bytes_eqb_refl. cbn [negb].
+      destruct (ad_byte_replacement (f_comps f) _ k b l x v y Hwf Hb Hbb Hy) as [e [He _]].
+      change (0 + blen BF3_FILE_SIG) with (blen BF3_FILE_SIG). rewrite He. exists e. reflexivity.
+  Qed.
 End Adapter.
